@@ -202,12 +202,21 @@ func runCheck(prop, tier string) int {
 
 	results := make([]*unitResult, len(units))
 	var wg sync.WaitGroup
-	next := 0
 	var mu sync.Mutex
+	cond := sync.NewCond(&mu)
 	solverStats := make([]SolverStats, *flagWorkers)
 	funcSteps := map[string]int64{}
 	stubs := map[string]int{}
 	skippedUnits := 0
+	// Work items are single paths (unit, decision prefix): the paths of a unit are
+	// independent re-executions, so a unit with many paths is spread over all workers.
+	type workItem struct {
+		unit   int
+		prefix []int32
+	}
+	var stack []workItem
+	nextUnit := 0
+	inflight := 0
 	for w := 0; w < *flagWorkers; w++ {
 		wg.Add(1)
 		go func(w int) {
@@ -220,22 +229,65 @@ func runCheck(prop, tier string) int {
 				solver.log = f
 			}
 			m := NewMachine(sh, solver)
-			m.wantWitness = true
 			for {
 				mu.Lock()
-				i := next
-				next++
-				mu.Unlock()
-				if i >= len(units) {
+				var it workItem
+				got := false
+				for !got {
+					if n := len(stack); n > 0 {
+						it = stack[n-1]
+						stack = stack[:n-1]
+						got = true
+						break
+					}
+					if nextUnit < len(units) {
+						if !deadline.IsZero() && time.Now().After(deadline) {
+							skippedUnits += len(units) - nextUnit
+							nextUnit = len(units)
+							continue
+						}
+						i := nextUnit
+						nextUnit++
+						results[i] = &unitResult{unit: units[i], undecWhy: map[string]int{}, reached: map[string]bool{}}
+						it = workItem{unit: i}
+						got = true
+						break
+					}
+					if inflight == 0 {
+						break
+					}
+					cond.Wait()
+				}
+				if !got {
+					cond.Broadcast()
+					mu.Unlock()
 					break
 				}
-				if !deadline.IsZero() && time.Now().After(deadline) {
-					mu.Lock()
-					skippedUnits++
+				r := results[it.unit]
+				if r.paths >= maxPaths {
+					r.undecided++
+					r.undecWhy["path budget exhausted"]++
+					r.truncated = true
 					mu.Unlock()
 					continue
 				}
-				results[i] = exploreUnit(m, sh, units[i], maxSteps, maxPaths)
+				pathNo := r.paths
+				r.paths++
+				inflight++
+				mu.Unlock()
+
+				m.wantWitness = pathNo == 0 || pathNo%7 == 3
+				u := units[it.unit]
+				res := m.RunPath(sh.entry(u.Entry), []value{strSlice(u.Args)}, it.prefix, maxSteps)
+
+				mu.Lock()
+				inflight--
+				for _, p := range res.Pending {
+					stack = append(stack, workItem{unit: it.unit, prefix: p})
+				}
+				recordPath(r, m, res)
+				cond.Broadcast()
+				mu.Unlock()
 			}
 			mu.Lock()
 			solverStats[w] = solver.Stats
@@ -569,73 +621,54 @@ func reproduces(f ReplayFile, nr NativeResult) bool {
 	return false
 }
 
-func exploreUnit(m *Machine, sh *Shared, u Unit, maxSteps int64, maxPaths int) *unitResult {
-	r := &unitResult{unit: u, undecWhy: map[string]int{}, reached: map[string]bool{}}
-	entry := sh.entry(u.Entry)
-	args := []value{strSlice(u.Args)}
-	queue := [][]int32{nil}
-	for len(queue) > 0 {
-		if r.paths >= maxPaths {
-			r.undecided += len(queue)
-			r.undecWhy["path budget exhausted"] += len(queue)
-			r.truncated = true
-			break
-		}
-		prefix := queue[len(queue)-1]
-		queue = queue[:len(queue)-1]
-		// sample a witness for the first path and then every 7th
-		m.wantWitness = r.paths == 0 || r.paths%7 == 3
-		res := m.RunPath(entry, args, prefix, maxSteps)
-		r.paths++
-		r.forks += res.Forks
-		r.steps += res.Steps
-		r.asserts += m.asserts
-		queue = append(queue, res.Pending...)
-		for k := range res.Reached {
-			r.reached[k] = true
-		}
-		if res.Weak {
-			r.weak++
-		}
-		switch res.Status {
-		case "ok":
-			r.okPaths++
-			if res.Undecided > 0 {
-				r.undecided++
-				r.undecWhy["solver unknown on an assertion"]++
-			}
-			if res.Witness != nil && len(r.witnesses) < 3 {
-				w := res.Witness
-				for _, c := range m.choices {
-					w[c[0]] = c[1]
-				}
-				r.witnesses = append(r.witnesses, w)
-				r.witReached = append(r.witReached, sortedKeys(res.Reached))
-			}
-			if r.sample == "" {
-				r.sample = fmt.Sprintf("decisions=%v pc=%s", res.Taken, clip(m.pcSummary(), 400))
-			}
-		case "assumed-away":
-			r.assumed++
-		case "failed":
-			for _, f := range res.Failures {
-				for _, c := range m.choices {
-					if f.Model != nil {
-						f.Model[c[0]] = c[1]
-					}
-				}
-				r.failures = append(r.failures, f)
-			}
-		default:
-			r.undecided++
-			why := res.Reason
-			if i := strings.Index(why, " at "); i > 0 && strings.HasPrefix(why, "unsupported") {
-				why = why[:i]
-			}
-			r.undecWhy[clip(why, 160)]++
-		}
+// recordPath folds one path result into its unit's result (caller holds the lock).
+func recordPath(r *unitResult, m *Machine, res PathResult) {
+	r.forks += res.Forks
+	r.steps += res.Steps
+	r.asserts += m.asserts
+	for k := range res.Reached {
+		r.reached[k] = true
 	}
-	return r
+	if res.Weak {
+		r.weak++
+	}
+	switch res.Status {
+	case "ok":
+		r.okPaths++
+		if res.Undecided > 0 {
+			r.undecided++
+			r.undecWhy["solver unknown on an assertion"]++
+		}
+		if res.Witness != nil && len(r.witnesses) < 3 {
+			w := res.Witness
+			for _, c := range m.choices {
+				w[c[0]] = c[1]
+			}
+			r.witnesses = append(r.witnesses, w)
+			r.witReached = append(r.witReached, sortedKeys(res.Reached))
+		}
+		if r.sample == "" {
+			r.sample = fmt.Sprintf("decisions=%v pc=%s", res.Taken, clip(m.pcSummary(), 400))
+		}
+	case "assumed-away":
+		r.assumed++
+	case "failed":
+		for _, f := range res.Failures {
+			for _, c := range m.choices {
+				if f.Model != nil {
+					f.Model[c[0]] = c[1]
+				}
+			}
+			r.failures = append(r.failures, f)
+		}
+	default:
+		r.undecided++
+		why := res.Reason
+		if i := strings.Index(why, " at "); i > 0 && strings.HasPrefix(why, "unsupported") {
+			why = why[:i]
+		}
+		r.undecWhy[clip(why, 160)]++
+	}
 }
 
 func writeInconclusiveEvidence(prop, tier string, seed int64, start time.Time, why string) {
